@@ -52,6 +52,16 @@ class Tracer(object):
         return {"bm": v["branch_metadata"].get(self.ea), "other": [k for k in v["branch_metadata"] if k != self.ea],
                 "cancellers": set(v["cancellers"]), "status": (rec or {}).get("status")}
 
+    def idle_heartbeat(self):
+        try:
+            eng = self.s.instances[0].engine
+            hist = eng.execution_history.get(self.ea)
+            return (len(self.s.broker.log) == self.pos and len(self.s.notifications) == self.note_pos
+                    and len(hist or []) == self.hist_len and len(eng.branch_metadata) <= 1
+                    and ((self.ea in eng.branch_metadata) == (self.before is not None and self.before["bm"] is not None)))
+        except Exception:
+            return False
+
     def scan_frames(self):
         log = self.s.broker.log
         out = []
@@ -80,6 +90,8 @@ class Tracer(object):
                 cb = t.callback
                 name = getattr(cb, "__name__", "")
                 info = {"name": name}
+                if name not in DELEGATES and name != "on_timeout":
+                    return info
                 try:
                     nl = inspect.getclosurevars(cb).nonlocals
                 except Exception:
@@ -104,6 +116,9 @@ class Tracer(object):
         elif step[0] in ("crash", "restart"):
             pre = {"name": "crash"}
         self.orig_do(step)
+        if pre is not None and pre.get("name") not in DELEGATES and pre.get("name") not in ("on_timeout", "crash") \
+                and self.idle_heartbeat():
+            return                      # a heartbeat / housekeeping timer that did nothing (the great majority of all steps)
         frames = self.scan_frames()
         hist = self.s.history(self.ea) or []
         hd = [(e.get("type"), self.hname(e), self.herror(e)) for e in hist[self.hist_len:]]
